@@ -5,6 +5,7 @@ window rule, flags, fixed parameters, recovery of rendered positions and fluxes,
 import json, random, warnings
 import numpy as np
 from .. import core
+from ..canon import digest
 
 SP = 4096
 
@@ -267,6 +268,47 @@ def replay_iter(c):
     return out
 
 
+def rec_iter_trace(seed):
+    """code -> spec: IterativePSFPhotometry on a random crowded, noisy scene for maxiters = 1..4; the tables are validated by
+    Trace_IterPSF.tla as consecutive Iterate steps"""
+    from photutils.detection import DAOStarFinder
+    from photutils.psf import CircularGaussianPRF, IterativePSFPhotometry, SourceGrouper
+    warnings.simplefilter('ignore')
+    rng = random.Random(seed)
+    h, w = 48, 56
+    y, x = np.mgrid[:h, :w]
+    m = CircularGaussianPRF(fwhm=3.0)
+    data = np.zeros((h, w))
+    n = rng.randint(0, 6)
+    for _ in range(n):
+        px, py, f = rng.uniform(4, w - 5), rng.uniform(4, h - 5), rng.uniform(200, 1500)
+        data += m.evaluate(x, y, f, px, py, 3.0)
+        for _ in range(rng.randint(0, 2)):          # companions of decreasing brightness
+            ang = rng.uniform(0, 2 * np.pi); px, py, f = px + 3.4 * np.cos(ang), py + 3.4 * np.sin(ang), f * rng.uniform(0.1, 0.3)
+            data += m.evaluate(x, y, f, px, py, 3.0)
+    data += np.random.default_rng(seed).normal(0, rng.choice([0.0, 0.2, 0.6]), (h, w))
+    mode = rng.choice(['new', 'all'])
+    sep = rng.choice([4.0, 6.0, 9.0])
+    thr = rng.choice([1.5, 3.0])
+    tables = []
+    rec = {'id': seed, 'mode': mode, 'tables': tables, 'raised': False, 'h': h, 'w': w, 'half': 160}      # half = 64 * fit_shape / 2
+    try:
+        for k in (1, 2, 3, 4):
+            ph = IterativePSFPhotometry(CircularGaussianPRF(fwhm=3.0), (5, 5), DAOStarFinder(thr, 3.0), grouper=SourceGrouper(sep), aperture_radius=4,
+                                        maxiters=k, mode=mode)
+            t = ph(data)
+            if t is None:
+                tables.append({'ids': [], 'iters': [], 'gids': [], 'gsizes': [], 'key': [], 'x': [], 'y': []})
+                continue
+            key = [int(digest([float(a), float(b), float(c)])[:7], 16) for a, b, c in zip(t['x_fit'], t['y_fit'], t['flux_fit'])]
+            tables.append({'ids': [int(v) for v in t['id']], 'iters': [int(v) for v in t['iter_detected']], 'gids': [int(v) for v in t['group_id']],
+                           'gsizes': [int(v) for v in t['group_size']], 'key': key,
+                           'x': [int(round(max(-1e6, min(1e6, float(v))) * 64)) for v in t['x_fit']], 'y': [int(round(max(-1e6, min(1e6, float(v))) * 64)) for v in t['y_fit']]})
+    except Exception as e:  # noqa
+        rec['raised'] = True; rec['exc'] = repr(e)
+    return rec
+
+
 def run(ctx):
     q = ctx.quick
     ctx.rule = ('seeded scenes rendered from the fitted PSF model (Gaussian PRFs, image-based, gridded), 1-5 sources with distinct fluxes in shuffled row order, '
@@ -294,6 +336,34 @@ def run(ctx):
     ctx.evaluations += len(icases); ctx.traces += len(icases)
     ctx.nontrivial += sum(1 for c in icases if len(c['blocks']) >= 2)
     ctx.sample({'kind': 'GEN IterPSF state', **{k: icases[len(icases) // 2][k] for k in ('depth', 'twin', 'mode', 'maxiters', 'blocks', 'groups')}})
+    # ... and recorded executions on arbitrary scenes are validated against the same step structure (Trace_IterPSF.tla)
+    itr = core.pmap(rec_iter_trace, [ctx.seed * 7907 + 10**6 + i for i in range(96 if q else 1500)], chunksize=2, on_raise='drop')
+    for r in itr:
+        if r['raised']:
+            ctx.violation('iterative_run_raises', {'what': 'IterPSF trace', 'mode': r['mode']}, {'case': r})
+    itr = [r for r in itr if not r['raised']]
+    iv = core.validate_batch(ctx, 'Trace_IterPSF', itr, 'Trace:IterPSF', shards=8)
+    for r in itr:
+        v = iv[r['id']]
+        if not v['ok']:
+            ctx.violation(v['clause'], {'what': 'IterPSF trace', 'mode': r['mode'], 'sizes': [len(t['ids']) for t in r['tables']]}, {'case': r})
+        else:
+            ctx.traces += 1
+    ctx.evaluations += len(itr)
+    ctx.nontrivial += sum(1 for r in itr if len(r['tables'][-1]['ids']) > len(r['tables'][0]['ids']))
+    grown = [r for r in itr if iv[r['id']]['ok'] and len(r['tables'][1]['ids']) > len(r['tables'][0]['ids'])][:4]
+    if grown:
+        ctx.sample({'kind': 'IterPSF trace', 'mode': grown[0]['mode'], 'iter_detected': [t['iters'] for t in grown[0]['tables']], 'group_id': [t['gids'] for t in grown[0]['tables']]})
+        bad = []
+        for k, r in enumerate(grown):
+            r2 = core.jcopy(r); r2['id'] = 10**9 + 500 + k
+            if k % 2:
+                r2['tables'][1]['iters'][-1] = 1           # a source of iteration 2 claims iteration 1
+            else:
+                r2['tables'][1]['ids'][-1] += 1            # an id is skipped
+            bad.append(r2)
+        vb = core.validate_batch(ctx, 'Trace_IterPSF', bad, 'SelfTest:IterPSF', shards=1)
+        ctx.selftest('corrupted iteration / id of an appended row', all(not v['ok'] for v in vb.values()))
     n = 320 if q else 5000
     recs = core.pmap(rec_scene, [ctx.seed * 9301 + i for i in range(n)], chunksize=2, on_raise='drop')
     for r in recs:      # rename for the trace spec (id = case id, idx = id column)
